@@ -142,6 +142,26 @@ def gen_steps(r, nops, md_prob=0.10, cut_opts=(True, False, "copy"), scenario=Fa
             if r.random() < 0.15:
                 s += "/nope"
             steps.append({"do": "get", "node": x, "path": s})
+    # directed (state that leaks between calls): the SAME absolute lookup from the same Root before and after the branch it
+    # names was cut off / grafted onto another tree — anything remembered from the first lookup is stale at the second
+    if r.random() < 0.4:
+        cands = [i for i in ids if rooted[i] and not isroot[i] and parent.get(i) is not None]
+        if cands:
+            x = r.choice(cands)
+            path, y, ok = [], x, True
+            while not isroot[y]:
+                path.append(names[y]); y = parent.get(y)
+                if y is None:
+                    ok = False; break
+            if ok:
+                s = "/" + "/".join(reversed(path))
+                steps.append({"do": "get", "node": y, "path": s})
+                others = [i for i in ids if isroot[i] and i != y and rooted[i]]
+                if others and r.random() < 0.5:
+                    steps.append({"do": "graft", "recv": r.choice(others), "scion": x, "opt": r.choice(OPTS)})
+                else:
+                    steps.append({"do": "cut", "node": x, "opt": r.choice(list(cut_opts))})
+                steps.append({"do": "get", "node": y, "path": s})
     # every operation is reached through its method or through the dispatcher `.tree(...)` (one or two spellings)
     for st in steps:
         if st["do"] in ("add", "force", "graft", "cut", "get"):
